@@ -449,7 +449,7 @@ def judge(ctx, events):
                           'wid': e['wid']})
         else:
             clean.append({'dir': 'internal'})
-    verdicts = validate_parallel(ctx, 'C07_Trace', clean, jobs=ctx.pick(2, 8) if len(clean) > 2000 else 1)
+    verdicts = validate_parallel(ctx, 'C07_Trace', clean, jobs=ctx.pick(3, 8) if len(clean) > 2000 else 1)
     clauses = {}
     for (i, clause) in verdicts:
         e = events[i - 1]
